@@ -234,10 +234,18 @@ func genApiExpect(r *h.Rand) h.Case {
 		// Resolve is identifier lookup, Context is '.'
 		{fmt.Sprintf(`{{ q := %d }}[{{ apiResolve("q") }}][{{ apiResolve("g") | raw }}][{{ apiResolve("nope") }}][{{ apiResolve(".") }}]`, v), fmt.Sprintf("[%d][G][][CTX]", v)},
 		{`{{range li}}<{{ apiContext() }}>{{end}}[{{ apiContext() }}]`, "LI[CTX]"},
+		// Resolve is identifier lookup also for the variables of a range over an interface slice / map: what it
+		// returns behaves like the variable (arithmetic, comparison, indexing), not like a boxed interface
+		{`{{range k, v := isl}}{{ apiResolve("v") + 10 }}/{{ v + 10 }},{{end}}`, "14/14,15/15,"},
+		{`{{range k, v := isl}}{{if apiResolve("v") < 5}}lt{{else}}ge{{end}}{{ apiResolve("k") + 1 }};{{end}}`, "lt1;ge2;"},
+		{`{{range k, v := ism}}{{ apiResolve("v") * 2 }}{{ upper(apiResolve("k")) }}{{end}}`, "8A"},
+		{`{{range v := isl}}{{end}}{{range i, row := isr}}{{ apiResolve("row")[0] + 1 }}|{{ len(apiResolve("row")) }};{{end}}`, "2|2;4|1;"},
 	}
 	c := cases[r.Intn(len(cases))]
 	p.esc = "html"
 	p.data = vStr("ctx")
+	p.vars.Add(bind("isl", vSliceI(vInt(4), vInt(5)))).Add(bind("ism", vMapI("a", vInt(4)))).
+		Add(bind("isr", vSliceI(vSliceI(vInt(1), vInt(2)), vSliceI(vInt(3)))))
 	gval := ""
 	var li []int
 	for _, x := range p.globals.Xs {
